@@ -10,6 +10,7 @@ the Python objects behind an id rotate through alias forms (1 / 1.0 / True).
   line()   the same history in the line protocol of lean/BoltonsVerif/C01/Driver.lean
   oracle() replays the history on two plain Python lists of pairs - no boltons code, no Lean model
 """
+import ast
 import collections
 import collections.abc
 import copy
@@ -113,6 +114,339 @@ def _kmap(forms):
 
 KMAP = {u: _kmap(f) for u, f in KEY_FORMS.items()}
 VMAP = {u: _kmap(f) for u, f in VAL_FORMS.items()}
+
+
+
+# --------------------------------------------------------------------------- translator: static effect table
+# `regen()` reads the CURRENT source of both copies of the class and regenerates, for every public method, whether it may
+# write (a) the dict's own storage, (b) the linked list / its cell index.  Props.lean proves over that table (by `decide`)
+# that no public method writes one structure without the other, that the readers the model treats as pure functions of
+# the state write nothing, that every mutator the model has an operation for is there and writes both, and that no dict
+# mutator is inherited unchanged.  The analysis is transitive (private helpers, module-level helpers, local aliases of
+# bound methods) and does not depend on attribute or helper names.
+
+DICT_MUT = ('__setitem__', '__delitem__', 'setdefault', 'pop', 'popitem', 'clear', 'update', '__ior__')
+DICT_INNER = ('__getitem__', 'get', 'setdefault', 'pop', 'items', 'values', 'popitem')   # hand out the stored value lists
+MUTATING = {'append', 'extend', 'insert', 'pop', 'remove', 'clear', 'sort', 'reverse', 'setdefault', 'update',
+            'popitem', 'add', 'discard', '__setitem__', '__delitem__', '__iadd__'}
+FRESH = {'sorted', 'list', 'tuple', 'set', 'frozenset', 'dict', 'len', 'iter', 'bool', 'repr', 'str', 'int', 'max', 'min',
+         'isinstance', 'callable', 'getattr', 'hasattr', 'type', 'next', 'zip', 'zip_longest', 'range', 'enumerate', 'id'}
+LINK_NAMES = {'PREV', 'NEXT', 'SPREV', 'SNEXT'}
+D, L = 'dict', 'll'
+
+
+def _is_super_call(e):
+    return isinstance(e, ast.Call) and isinstance(e.func, ast.Name) and e.func.id == 'super'
+
+
+def _is_self(e):
+    return isinstance(e, ast.Name) and e.id == 'self'
+
+
+class FnEffects:
+    """flow-insensitive effect analysis of one function: which of the two structures (the dict's own storage / the
+    linked list with its cell index, i.e. every instance attribute) it may write, and which other functions it calls"""
+
+    def __init__(self, fn, method_names, module_funcs, state_attrs=None):
+        self.fn, self.methods, self.funcs, self.state = fn, method_names, module_funcs, state_attrs
+        self.taint = {}          # local name -> set of D / L
+        self.alias = {}          # local name -> ('super', m) | ('self', m) | ('meth', taint, attr) | ('superobj',)
+        self.writes = set()
+        self.calls = set()       # ('self', m) | ('func', f)
+        for _ in range(4):       # a few rounds: names may be used before the assignment that taints them (loops)
+            self.visit_body(fn.body)
+
+    def is_state(self, attr):
+        if attr in self.methods or attr.startswith('__'):
+            return False
+        return self.state is None or attr in self.state
+
+    # ---- taint of an expression: may evaluating it hand out (part of) one of the structures?
+    def t(self, e):
+        if e is None:
+            return set()
+        if isinstance(e, ast.Name):
+            return set(self.taint.get(e.id, ()))
+        if isinstance(e, ast.Attribute):
+            if _is_self(e.value):
+                return {L} if self.is_state(e.attr) else set()
+            return self.t(e.value)
+        if isinstance(e, ast.Subscript):
+            if isinstance(e.slice, ast.Slice):
+                return set()                      # a slice of a list is a copy
+            if _is_self(e.value):
+                self.calls.add(('self', '__getitem__'))
+                return set()
+            return self.t(e.value)
+        if isinstance(e, ast.Call):
+            f = e.func
+            for a in list(e.args) + [k.value for k in e.keywords]:
+                self.t(a)                          # (records the self-calls inside arguments)
+            if isinstance(f, ast.Name):
+                al = self.alias.get(f.id)
+                if al:
+                    return self.call_alias(al)
+                if f.id in self.funcs:
+                    self.calls.add(('func', f.id))
+                    return set().union(*[self.t(a) for a in e.args]) if e.args else set()
+                if f.id in FRESH:
+                    return set()
+                return set().union(*[self.t(a) for a in e.args]) if e.args else set()
+            if isinstance(f, ast.Attribute):
+                return self.call_alias(self.alias_of(f))
+            return set()
+        if isinstance(e, (ast.ListComp, ast.SetComp, ast.GeneratorExp, ast.DictComp)):
+            for g in e.generators:
+                self.bind(g.target, self.t(g.iter))
+                for c in g.ifs:
+                    self.t(c)
+            if isinstance(e, ast.DictComp):
+                self.t(e.key)
+                return self.t(e.value)            # keys are hashable: what can be written through is the values
+            return self.t(e.elt)
+        if isinstance(e, (ast.Tuple, ast.List, ast.Set)):
+            return set().union(*[self.t(x) for x in e.elts]) if e.elts else set()
+        if isinstance(e, ast.IfExp):
+            self.t(e.test)
+            return self.t(e.body) | self.t(e.orelse)
+        if isinstance(e, ast.BoolOp):
+            return set().union(*[self.t(x) for x in e.values])
+        if isinstance(e, ast.Starred):
+            return self.t(e.value)
+        if isinstance(e, ast.Compare):
+            self.t(e.left)
+            for c in e.comparators:
+                self.t(c)
+            return set()
+        if isinstance(e, (ast.BinOp,)):
+            self.t(e.left), self.t(e.right)
+            return set()
+        if isinstance(e, ast.UnaryOp):
+            self.t(e.operand)
+            return set()
+        if isinstance(e, (ast.Yield, ast.YieldFrom, ast.Await)):
+            self.t(e.value)
+            return set()
+        if isinstance(e, ast.JoinedStr):
+            for v in e.values:
+                if isinstance(v, ast.FormattedValue):
+                    self.t(v.value)
+            return set()
+        return set()
+
+    def alias_of(self, f):
+        """what a bound-method expression `X.attr` refers to"""
+        v = f.value
+        if _is_super_call(v) or (isinstance(v, ast.Name) and self.alias.get(v.id) == ('superobj',)):
+            return ('super', f.attr)
+        if _is_self(v):
+            if f.attr in self.methods:
+                return ('self', f.attr)
+            return ('meth', frozenset({L}) if self.is_state(f.attr) else frozenset(), f.attr)
+        if isinstance(v, ast.Name) and v.id == 'dict':
+            return ('super', f.attr)              # dict.M(self, ...)
+        return ('meth', frozenset(self.t(v)), f.attr)
+
+    def call_alias(self, al):
+        if al[0] == 'super':
+            if al[1] in DICT_MUT:
+                self.writes.add(D)
+            return {D} if al[1] in DICT_INNER else set()
+        if al[0] == 'self':
+            self.calls.add(al)
+            return set()
+        if al[0] == 'meth':
+            if al[2] in MUTATING:
+                self.writes |= set(al[1])
+            return set(al[1])
+        return set()
+
+    def bind(self, target, taint):
+        if isinstance(target, ast.Name):
+            if taint:
+                self.taint[target.id] = set(self.taint.get(target.id, ())) | taint
+        elif isinstance(target, (ast.Tuple, ast.List)):
+            for x in target.elts:
+                self.bind(x, taint)
+        elif isinstance(target, ast.Starred):
+            self.bind(target.value, taint)
+        else:
+            self.store(target)
+
+    def store(self, target):
+        """an assignment / deletion THROUGH a subscript or an attribute writes the object it goes through"""
+        if isinstance(target, (ast.Tuple, ast.List)):
+            for x in target.elts:
+                self.store(x)
+        elif isinstance(target, ast.Subscript):
+            if _is_self(target.value):
+                self.calls.add(('self', '__setitem__'))       # (or __delitem__: the caller says which)
+                return
+            self.writes |= self.t(target.value)
+            if isinstance(target.slice, ast.Name) and target.slice.id in LINK_NAMES:
+                self.writes.add(L)
+        elif isinstance(target, ast.Attribute):
+            if _is_self(target.value):
+                if self.is_state(target.attr):
+                    self.writes.add(L)
+            else:
+                self.writes |= self.t(target.value)
+
+    def assign(self, target, value):
+        if isinstance(target, (ast.Tuple, ast.List)) and isinstance(value, (ast.Tuple, ast.List)) \
+                and len(target.elts) == len(value.elts):
+            for a, b in zip(target.elts, value.elts):
+                self.assign(a, b)
+            return
+        if isinstance(target, ast.Name):
+            if _is_super_call(value):
+                self.alias[target.id] = ('superobj',)
+                return
+            if isinstance(value, ast.Attribute) and not (_is_self(value.value) and value.attr not in self.methods
+                                                         and not isinstance(value.ctx, ast.Store)
+                                                         and False):
+                al = self.alias_of(value)
+                if al[0] in ('super', 'self') or (al[0] == 'meth' and not _is_self(value.value)):
+                    self.alias[target.id] = al
+                    # a plain attribute read of a tainted object also hands the object on
+                    if al[0] == 'meth':
+                        self.bind(target, set(al[1]))
+                    return
+            self.bind(target, self.t(value))
+        else:
+            self.t(value)
+            self.store(target)
+
+    def visit_body(self, body):
+        for s in body:
+            self.visit(s)
+
+    def visit(self, s):
+        if isinstance(s, ast.Assign):
+            for tg in s.targets:
+                self.assign(tg, s.value)
+        elif isinstance(s, ast.AnnAssign):
+            if s.value is not None:
+                self.assign(s.target, s.value)
+        elif isinstance(s, ast.AugAssign):
+            self.t(s.value)
+            if isinstance(s.target, ast.Name):
+                self.writes |= self.t(s.target)              # `values += more` extends the list in place
+            else:
+                self.store(s.target)
+        elif isinstance(s, ast.Delete):
+            for tg in s.targets:
+                if isinstance(tg, ast.Subscript) and _is_self(tg.value):
+                    self.calls.add(('self', '__delitem__'))
+                elif not isinstance(tg, ast.Name):
+                    self.store(tg)
+        elif isinstance(s, (ast.For, ast.AsyncFor)):
+            it = s.iter
+            if _is_self(it):
+                self.calls.add(('self', '__iter__'))
+            self.bind(s.target, self.t(it))
+            self.visit_body(s.body)
+            self.visit_body(s.orelse)
+        elif isinstance(s, ast.While):
+            self.t(s.test)
+            self.visit_body(s.body)
+            self.visit_body(s.orelse)
+        elif isinstance(s, ast.If):
+            self.t(s.test)
+            self.visit_body(s.body)
+            self.visit_body(s.orelse)
+        elif isinstance(s, (ast.With, ast.AsyncWith)):
+            for it in s.items:
+                tt = self.t(it.context_expr)
+                if it.optional_vars is not None:
+                    self.bind(it.optional_vars, tt)
+            self.visit_body(s.body)
+        elif isinstance(s, ast.Try):
+            self.visit_body(s.body)
+            for h in s.handlers:
+                self.visit_body(h.body)
+            self.visit_body(s.orelse)
+            self.visit_body(s.finalbody)
+        elif isinstance(s, (ast.Expr, ast.Return)):
+            self.t(s.value)
+        elif isinstance(s, ast.Raise):
+            self.t(s.exc)
+        elif isinstance(s, ast.Assert):
+            self.t(s.test)
+        elif isinstance(s, (ast.FunctionDef, ast.AsyncFunctionDef)):
+            self.visit_body(s.body)                           # a nested helper: its effects count for the outer one
+
+
+ORDERED_READERS = ('iteritems', 'iterkeys', 'itervalues', '__reversed__')
+
+
+def _state_attrs(meths, funcs):
+    """the instance attributes that make up the linked list and its cell index: those the ordered readers consult
+    (through any private helper) and those the functions that re-link cells work with.  Any other attribute a
+    method may set (a memo, a counter) is not part of the pair list."""
+    def loads(fn):
+        return {n.attr for n in ast.walk(fn) if isinstance(n, ast.Attribute) and _is_self(n.value)
+                and n.attr not in meths and not n.attr.startswith('__')}
+
+    def self_calls(fn):
+        out = set()
+        for n in ast.walk(fn):
+            if isinstance(n, ast.Attribute) and _is_self(n.value) and n.attr in meths:
+                out.add(n.attr)
+        return out
+
+    def links(fn):
+        return any(isinstance(n, ast.Subscript) and isinstance(n.ctx, ast.Store) and isinstance(n.slice, ast.Name)
+                   and n.slice.id in LINK_NAMES for n in ast.walk(fn))
+
+    def calls_linking_func(fn):
+        return any(isinstance(n, ast.Call) and isinstance(n.func, ast.Name) and n.func.id in funcs
+                   and links(funcs[n.func.id]) for n in ast.walk(fn))
+    if not any(r in meths for r in ORDERED_READERS):
+        return None
+    todo, seen = [r for r in ORDERED_READERS if r in meths], set()
+    while todo:
+        m = todo.pop()
+        if m not in seen:
+            seen.add(m)
+            todo += [c for c in self_calls(meths[m]) if c not in seen]
+    state = set()
+    for m in seen:
+        state |= loads(meths[m])
+    for m, fn in meths.items():
+        if links(fn) or calls_linking_func(fn):
+            state |= loads(fn)
+    return state
+
+
+def class_effects(path, clsname='OrderedMultiDict'):
+    tree = ast.parse(open(path).read())
+    funcs = {n.name: n for n in tree.body if isinstance(n, ast.FunctionDef)}
+    cls = next(n for n in tree.body if isinstance(n, ast.ClassDef) and n.name == clsname)
+    meths = {n.name: n for n in cls.body if isinstance(n, ast.FunctionDef)}
+    state = _state_attrs(meths, funcs)
+    fx = {}
+    for name, fn in meths.items():
+        fx[('self', name)] = FnEffects(fn, set(meths), set(funcs), state)
+    for name, fn in funcs.items():
+        fx[('func', name)] = FnEffects(fn, set(), set(funcs))
+    eff = {k: set(v.writes) for k, v in fx.items()}
+    changed = True
+    while changed:
+        changed = False
+        for k, v in fx.items():
+            for c in v.calls:
+                if c in eff and not eff[c] <= eff[k]:
+                    eff[k] |= eff[c]
+                    changed = True
+    rows = []
+    for name in meths:
+        if name == '__new__' or (name.startswith('_') and not name.startswith('__')):
+            continue
+        e = eff[('self', name)]
+        rows.append((name, D in e, L in e))
+    inherited = [m for m in DICT_MUT if m not in meths]
+    return rows, inherited, sorted(state or [])
 
 
 class Ctx:
@@ -233,6 +567,28 @@ class C01(Property):
     CORRESPONDENCE_NAME = ('C01.Driver (concrete model: dict of value lists + pointer-level linked list of cells + per-key '
                            'cell index _map; readers through its abstraction, reversed() along PREV) vs boltons '
                            'OrderedMultiDict (dictutils, urlutils copy, QueryParamDict)')
+
+    # ------------------------------------------------------------------ translator hook
+    def regen(self):
+        lines = ['/- GENERATED by harness/bv/props/c01.py from boltons/dictutils.py and boltons/urlutils.py (static effect',
+                 '   analysis of the AST of both copies of class OrderedMultiDict). Do not edit. -/',
+                 'namespace Generated.C01', '',
+                 '/-- one public method: may it write the dict\'s own storage / the linked list with its cell index? -/',
+                 'structure Method where', '  file : String', '  name : String', '  dictW : Bool', '  llW : Bool',
+                 'deriving Repr, DecidableEq', '', 'def methods : List Method := [']
+        rows, inh, states = [], [], []
+        for mod in ('dictutils', 'urlutils'):
+            r, i, st = class_effects(os.path.join(common.REPO, 'boltons', mod + '.py'))
+            rows += [(mod, n, d, l) for n, d, l in r]
+            inh += [(mod, m) for m in i]
+            states.append('%s: %s' % (mod, ', '.join(st) or '(every instance attribute)'))
+        lines += ['  ⟨"%s", "%s", %s, %s⟩%s' % (f, n, str(d).lower(), str(l).lower(), ',' if j < len(rows) - 1 else '')
+                  for j, (f, n, d, l) in enumerate(rows)]
+        lines += [']', '', '/-- dict mutators the class does not override (they would change the dict behind the list\'s back) -/',
+                  'def inheritedMutators : List (String × String) := [%s]' % ', '.join('("%s", "%s")' % p for p in inh), '',
+                  '-- instance attributes counted as the linked list / cell index: ' + '; '.join(states), '',
+                  'end Generated.C01', '']
+        return {'C01_Effects.lean': '\n'.join(lines)}
 
     # ------------------------------------------------------------------ generation
     def _full_alphabet(self):
